@@ -144,6 +144,11 @@ class C02(Base):
         al = ["<tl to='%s'>" % gen.READY_T, "</tl>", "<rm name='a'>", "</rm>", "<rm name='b'>", "x", " ", "\n", "<tl skip>", "é"]
         for s in gen.g_atoms_exhaustive("<", ">", quick(tier, 4, 5), al):
             yield self.mk(s, "<", ">", proto.DEFAULT_CFG, "tag-atoms")
+        # condition attributes that are missing, valueless or empty, under target sets that contain the empty name
+        al2 = ["<rm>", "<rm name>", "<rm name=''>", "</rm>", "<tl>", "<tl to>", "</tl>", "<rm name='a'>", "x", "\n"]
+        for cfg in (Cfg(targets=("",)), Cfg(targets=("", "a")), Cfg(off="", targets=("",))):
+            for s in gen.g_atoms_exhaustive("<", ">", quick(tier, 3, 4), al2):
+                yield self.mk(s, "<", ">", cfg, "tag-atoms-empty-name")
 
     def spec_reqs(self, case, impl):
         k, v = parse_reply(impl[0])
@@ -278,7 +283,11 @@ class C04(C02):
                   "tl name=''", "rm to='2000-01-01 00:00:00'",
                   # an unquoted value swallows what follows up to the next blank - line breaks included
                   "tl rev=3\nto='2000-01-01 00:00:00'", "rm x=1\nname='a'", "rm x=1\n name='a'", "rm x=1\tname='a'",
-                  "tl rev=3\n\tto='2000-01-01 00:00:00'", "rm x=y\nname='a' z", "tl a=b\nto='2000-01-01 00:00:00'\nc"]
+                  "tl rev=3\n\tto='2000-01-01 00:00:00'", "rm x=y\nname='a' z", "tl a=b\nto='2000-01-01 00:00:00'\nc",
+                  # the condition attribute written twice: the first one decides
+                  "rm name='b' name='a'", "rm name='' name='a'", "rm name name='a'", "rm name='b' x='1' name='a'",
+                  "tl to='2999-01-01 00:00:00' to='2000-01-01 00:00:00'", "tl to='x' to='2000-01-01 00:00:00'",
+                  "tl to to='2000-01-01 00:00:00'"]
         cfgs2 = [proto.DEFAULT_CFG, Cfg(targets=("",)), Cfg(targets=("", "a")), Cfg(targets=("name", "")), Cfg(off="", targets=("",)),
                  Cfg(now=4102444800, targets=("",)), Cfg(now=4102444800, off="", targets=("", "x")),
                  Cfg(tl="rm", rm="rm", targets=("",)), Cfg(tl="tl", rm="tl", targets=("",))]
@@ -476,9 +485,13 @@ class C06(Base):
         # every name of the pool once as the only flag target and once as the only config-file line
         for f in names:
             others = [x for x in names if x != f]
-            for via in ("flag", "file"):
+            for via in ("flag", "file", "file-crlf", "file-no-final-newline"):
                 doc_names = [rng.choice(others), f, rng.choice(others)]
-                body = {"cli": True, "doc_names": doc_names, "flags": [f] if via == "flag" else [], "file": [f] if via == "file" else None}
+                body = {"cli": True, "doc_names": doc_names, "flags": [f] if via == "flag" else [], "file": [f] if via != "flag" else None}
+                if via.startswith("file-"):
+                    if f == "" and via == "file-no-final-newline":
+                        continue    # an empty file has no line at all
+                    body["file_style"] = via[5:]
                 yield Case("cli-targets", [], body, key=json.dumps(body, sort_keys=True))
         for i in range(n):
             doc_names = [rng.choice(names) for _ in range(3)]
@@ -496,7 +509,11 @@ class C06(Base):
                 args += ["--removal-marker-target-name=" + f]
             if m["file"] is not None:
                 p = os.path.join(td, "targets.txt")
-                open(p, "w").write("".join(x + "\n" for x in m["file"]))
+                eol = {"crlf": "\r\n"}.get(m.get("file_style"), "\n")
+                text = "".join(x + eol for x in m["file"])
+                if m.get("file_style") == "no-final-newline" and text:
+                    text = text[:-1]
+                open(p, "w", newline="").write(text)
                 args += ["--removal-marker-target-config", p]
             r = subprocess.run(args, input=doc.encode(), stdout=subprocess.PIPE, stderr=subprocess.PIPE)
         targets = set(m["flags"]) | set(m["file"] or [])
@@ -622,6 +639,12 @@ class C08(C07):
                 yield self.mk(s, ds, de, label="delim-chars")
             for s in gen.g_atoms_random(rng, ds, de, quick(tier, 500, 20000), maxlen=30, alphabet=al + [ds, de, ds, de]):
                 yield self.mk(s, ds, de, label="delim-random")
+            # multi-byte characters directly behind / in front of / inside delimiters
+            mb = [ds, de, ds, de, "é", "あ", "𝄞", "x", " "] + [c for c in ds + de]
+            for s in gen.g_atoms_random(rng, ds, de, quick(tier, 300, 10000), maxlen=12, alphabet=mb):
+                yield self.mk(s, ds, de, label="delim-multibyte")
+            for s in gen.g_atoms_exhaustive(ds, de, 3, [ds, de, "あ", "x"]):
+                yield self.mk(s, ds, de, label="delim-multibyte")
         n = quick(tier, 600, 20000)
         for d, ds, de in doc_stream(rng, tier, n, n, 0, 0, delims=self.pairs):
             yield self.mk(d, ds, de, label="doc")
